@@ -3,7 +3,7 @@
 # usage: tools/dbg.sh C09 '{"part":0,"per_op":3,"tier":"quick","seed":0,"shard":0}' [repo]
 prop="$1"; spec="$2"; repo="${3:-/repo}"
 snap=$(mktemp -d /tmp/numpoly-verif-dbg-XXXX)
-cp -r "$repo/numpoly" "$snap/"
+cp -r "$repo/numpoly" "$repo/test" "$repo/conftest.py" "$repo/pyproject.toml" "$snap/"
 echo "$spec" > "$snap/spec.json"
 cd /verif && NUMPOLY_VERIF_SNAPSHOT="$snap" PYTHONPATH="$snap:/verif" PYTHONHASHSEED=0 /venv/bin/python -P -m vf.worker "$prop" "$snap/spec.json" "$snap/out.json"
 rc=$?
